@@ -348,6 +348,7 @@ def _run(case, solver_obj=None, keep=False):
     out["evals_out_of_box"] = [(n, s, x) for (n, inb, s, x) in evals if not inb][:20]
     out["evals_by_name"] = {k: sum(1 for e in evals if e[0] == k) for k in ("obj", "obj_grad", "cons", "cons_jac", "lag_hess")}
     out["reads"] = clock.k if clock else None
+    out["faults_applied"] = prob.applied if isinstance(prob, FaultyProblem) else None
     out["scaling"] = None
     if params is not None and not case.get("integration"):
         try:
@@ -384,25 +385,34 @@ class FaultyProblem:
             return True
         return False
 
+    # `applied` counts the poisonings that really took place (a matrix without stored entries cannot be poisoned)
+    applied = 0
+
     def obj(self, x):
         v = self.inner.obj(x)
-        return float("nan") if self._bad("obj", x) else v
+        if self._bad("obj", x):
+            self.applied += 1
+            return float("nan")
+        return v
 
     def obj_grad(self, x):
         v = np.array(self.inner.obj_grad(x), dtype=float)
         if self._bad("obj_grad", x):
+            self.applied += 1
             v[:] = np.inf
         return v
 
     def cons(self, x):
         v = np.array(self.inner.cons(x), dtype=float)
         if self._bad("cons", x) and len(v):
+            self.applied += 1
             v[:] = np.nan
         return v
 
     def cons_jac(self, x):
         J = self.inner.cons_jac(x)
         if self._bad("cons_jac", x) and J.nnz:
+            self.applied += 1
             J = J.copy().astype(float)
             J.data[:] = np.nan
         return J
@@ -410,6 +420,7 @@ class FaultyProblem:
     def lag_hess(self, x, y):
         H = self.inner.lag_hess(x, y)
         if self._bad("lag_hess", x) and H.nnz:
+            self.applied += 1
             H = H.copy().astype(float)
             H.data[:] = np.inf
         return H
